@@ -1,6 +1,7 @@
 """C02 - evaluation is a pure, repeatable function of formula and registered bindings."""
 import contextlib
 import copy
+import datetime
 import gc
 import io
 import json
@@ -271,6 +272,7 @@ MUT_FORMULAS = [
     'INDEX(v_m,2)', 'INDEX(v_n,1)', 'INDEX(v_n,1,2)', 'INDEX(v_n,0,1)', 'INDEX(v_n,1)*2', 'MATCH(2,v_m,0)', 'MATCH(2,v_m,1)', 'TEXTJOIN(",",TRUE,v_t)', 'CONCATENATE(v_t,v_l)', 'SUMIFS(v_l,v_m,">1")',
     'SUMIF(v_l,">1")', 'COUNTIF(v_t,"a*")', 'AVERAGEIF(v_l,">0",v_m)', 'MAXIFS(v_l,v_m,">0")', 'AND(v_l)', 'OR(v_n)', 'XOR(v_l)', 'IF(TRUE,v_l,v_m)', 'IFERROR(v_l,1)', 'CHOOSE(1,v_l,v_m)',
     'SWITCH(1,1,v_l,v_m)', 'B2:C3', 'SUM(B2:C3)', 'B2:C3*2', 'INDEX(B2:C3,1)', '{B2:C3,v_l}', 'HF(B2:C3)', 'HG(v_l)', 'HG(v_l)+1', 'SUM(HG(v_m))', 'E5', 'E5*2', 'INDEX(E5,2)', 'HF(E5,v_l)&"x"',
+    'COUNTA(v_dt)', 'v_dt', 'COUNT(v_dt,v_l)', 'MAX(v_dt)', 'v_dn', 'COUNTA(v_dn)', 'INDEX(v_dt,1)', 'YEAR(INDEX(v_dt,1))', 'v_dt+1', 'SUM(v_dn)', 'HF(v_dt,v_dn)', 'IF(TRUE,v_dn,0)', 'COUNTA(B2:C3)', 'COUNTA(E5)',
     'v_l&"x"', 'v_l=v_m', 'LEN(v_t)', 'AVERAGEA(v_t,v_l)', 'COUNTA(v_n)', 'COUNTBLANK(v_n)', 'SLOPE(v_l,v_m)', 'GEOMEAN(v_l)', 'HARMEAN(v_m)', 'ISERROR(v_l)', 'N(v_l)', 'T(v_t)', 'v_l+', 'SUM(v_l']
 
 
@@ -306,9 +308,11 @@ def same_items(a, b):
 
 def check_mutation(case):
     host = {'v_l': list(case['l']), 'v_m': list(case['m']), 'v_n': [list(r) for r in case['n']], 'v_k': list(case['k']), 'v_t': list(case['t']), 'v_one': [case['l'][0]], 'v_row': [list(case['m'])],
-            'v_le': [case['l'][0], errors().NOT_AVAILABLE, case['l'][1], errors().DIV_ZERO], 'v_ne': [[1, errors().NUM], [errors().REF, 4]]}
-    rng = [[1, 2], [3, 4]]
-    cellv = [7, [8, 9]]
+            'v_le': [case['l'][0], errors().NOT_AVAILABLE, case['l'][1], errors().DIV_ZERO], 'v_ne': [[1, errors().NUM], [errors().REF, 4]],
+            # calendar values of both kinds among the items (a date is not a date-time: turning one into the other inside the host's list is a change)
+            'v_dt': [datetime.date(2020, 2, 29), case['l'][0], datetime.datetime(2021, 1, 1, 6, 0)], 'v_dn': [[datetime.date(1999, 12, 31), 1], [2, datetime.date(2024, 3, 1)]]}
+    rng = [[1, 2], [3, datetime.date(2019, 5, 17)]] if case['l'][0] % 2 else [[1, 2], [3, 4]]
+    cellv = [7, [8, 9], datetime.date(2018, 1, 1)] if case['m'][0] % 2 else [7, [8, 9]]
     ret = [10, 20, 30]
     seen_args = []
     P = hot().Parser()
